@@ -914,6 +914,20 @@ class Extractor {
     O["const"] = VD->getType().isConstQualified();
     if (const auto *CAT = Ctx.getAsConstantArrayType(VD->getType()))
       O["extent"] = llvm::toString(CAT->getSize(), 10, false);
+    // static-storage objects: initialised before any code runs (constant initialisation) or by code that runs at some point
+    // during program start-up (dynamic initialisation: a non-constexpr constructor, a non-constant initialiser)
+    if (VD->hasGlobalStorage() && VD->hasDefinition())
+      O["const_init"] = VD->getDefinition()->hasConstantInitialization();
+    {
+      // the element type's base classes (an array of `struct Flag : std::atomic<bool>` is still an array of atomic flags)
+      QualType ET = Ctx.getBaseElementType(VD->getType());
+      if (const CXXRecordDecl *ER = ET->getAsCXXRecordDecl())
+        if (ER->hasDefinition() && ER->getNumBases() > 0) {
+          json::Array Bs;
+          for (const auto &B : ER->bases()) Bs.push_back(canonStr(B.getType().getCanonicalType()));
+          O["elem_bases"] = std::move(Bs);
+        }
+    }
     QualType T = VD->getType();
     bool Done = false;
     if (T.isConstQualified() && (T->isIntegralOrEnumerationType()) && VD->hasInit() &&
